@@ -2,9 +2,7 @@ package rules
 
 import (
 	"fmt"
-	"go/ast"
 	"go/token"
-	"go/types"
 	"strings"
 
 	"golang.org/x/tools/go/ssa"
@@ -53,6 +51,11 @@ func runInputContract(r *core.Run) {
 		if ct.rel != "" {
 			name = ct.rel + "." + ct.typ
 		}
+		cr, why := discoverCursorRoles(r, ct)
+		if cr == nil {
+			r.Unknown(name+" field roles", token.NoPos, "cannot identify the buffer / position / selection-start fields of "+name+": "+why)
+			continue
+		}
 		get := func(m string) *ssa.Function {
 			fn := r.Prog.SSAFunc(ct.rel, ct.typ, m)
 			if fn == nil {
@@ -60,163 +63,176 @@ func runInputContract(r *core.Run) {
 			}
 			return fn
 		}
-		z := "z"
-		pos, start, buflen := func() string { return z + ".pos" }, func() string { return z + ".start" }, func() string { return "len(" + z + ".buf)" }
-		// storeSet: the function stores exactly the given field := Lin pairs
-		storeSet := func(fn *ssa.Function, m string, want map[string]Lin) {
-			z = fn.Params[0].Name()
-			stores := allStores(fn)
-			got := map[string]Lin{}
-			for _, st := range stores {
-				got[canon(st.Addr)] = linOf(st.Val)
+		pos, start, buflen := linAtom("z.pos"), linAtom("z.start"), linAtom("len(z.buf)")
+		sum := func(fn *ssa.Function, m string) *methSummary {
+			s := cr.summarise(r, fn, 0)
+			if !s.ok {
+				r.Unknown(name+"."+m+" summary", fn.Pos(), "cannot summarise the method symbolically: "+s.why)
+				return nil
 			}
-			ok := len(stores) == len(want)
-			var desc []string
-			for f, l := range got {
-				desc = append(desc, f+" = "+l.String())
-			}
-			for f, w := range want {
-				g, has := got[f]
-				if !has || !g.equal(w) {
+			return s
+		}
+		param := func(fn *ssa.Function, i int) Lin { return linAtom(fn.Params[i].Name()) }
+		effect := func(fn *ssa.Function, m string, s *methSummary, want map[string]Lin) {
+			ok := len(s.other) == 0
+			for role, l := range s.fields {
+				w, has := want[role]
+				if !has {
+					w = linAtom("z." + role) // unchanged
+				}
+				if !l.equal(w) {
 					ok = false
 				}
 			}
-			var wd []string
-			for f, w := range want {
-				wd = append(wd, f+" = "+w.String())
+			for role, w := range want {
+				if l, has := s.fields[role]; !has && !w.equal(linAtom("z."+role)) {
+					ok = false
+					_ = l
+				}
 			}
-			r.Check(ok, name+"."+m+" effect", fn.Pos(), strings.Join(desc, "; "), fmt.Sprintf("%s.%s assigns {%s}; the documented cursor arithmetic is {%s}", name, m, strings.Join(desc, "; "), strings.Join(wd, "; ")))
+			var wd []string
+			for role, w := range want {
+				wd = append(wd, "z."+role+" = "+w.String())
+			}
+			r.Check(ok, name+"."+m+" effect", fn.Pos(), s.effectString(), fmt.Sprintf("%s.%s assigns {%s}; the documented cursor arithmetic is {%s}", name, m, s.effectString(), strings.Join(wd, "; ")))
 		}
-		retLin := func(fn *ssa.Function, m string, want Lin) {
-			ret := singleReturn(fn)
-			if ret == nil || len(ret.Results) != 1 {
-				r.Unknown(name+"."+m+" result", fn.Pos(), "expected a single return of one value")
+		retLin := func(fn *ssa.Function, m string, s *methSummary, want Lin) {
+			if s.retLin == nil {
+				r.Unknown(name+"."+m+" result", fn.Pos(), "expected a single integer result")
 				return
 			}
-			g := linOf(ret.Results[0])
-			r.Check(g.equal(want), name+"."+m+" result", ret.Pos(), g.String(), fmt.Sprintf("%s.%s returns `%s`; documented: `%s`", name, m, g, want))
+			r.Check(s.retLin.equal(want), name+"."+m+" result", fn.Pos(), s.retLin.String(), fmt.Sprintf("%s.%s returns `%s`; documented: `%s`", name, m, *s.retLin, want))
 		}
-		sliceRet := func(fn *ssa.Function, m string, lo, hi Lin) {
-			ret := singleReturn(fn)
-			var sl *ssa.Slice
-			if ret != nil && len(ret.Results) == 1 {
-				sl, _ = ret.Results[0].(*ssa.Slice)
-			}
-			if sl == nil {
+		sliceRet := func(fn *ssa.Function, m string, s *methSummary, lo, hi Lin) {
+			if s.retSlice == nil {
 				r.Unknown(name+"."+m+" result", fn.Pos(), "expected to return a slice expression of the buffer")
 				return
 			}
-			low := linConst(0)
-			if sl.Low != nil {
-				low = linOf(sl.Low)
-			}
-			if sl.High == nil || sl.Max == nil {
-				r.Fail(name+"."+m+" three-index slice", sl.Pos(), "the returned slice is not capped (buf[a:b:b]): appending to a token would overwrite the input bytes that follow it")
+			sd := s.retSlice
+			if sd.max == nil {
+				r.Fail(name+"."+m+" three-index slice", fn.Pos(), "the returned slice is not capped (buf[a:b:b]): appending to a token would overwrite the input bytes that follow it")
 				return
 			}
-			h, mx := linOf(sl.High), linOf(sl.Max)
-			r.Check(canon(sl.X) == z+".buf" && low.equal(lo) && h.equal(hi), name+"."+m+" result", sl.Pos(), fmt.Sprintf("buf[%s:%s]", low, h), fmt.Sprintf("%s.%s returns buf[%s:%s], documented buf[%s:%s]", name, m, low, h, lo, hi))
-			r.Check(mx.equal(h), name+"."+m+" three-index slice", sl.Pos(), "cap == len", fmt.Sprintf("slice capacity bound `%s` differs from its length bound `%s`: appending to the returned bytes can overwrite input", mx, h))
+			r.Check(sd.lo.equal(lo) && sd.hi.equal(hi), name+"."+m+" result", fn.Pos(), fmt.Sprintf("buf[%s:%s]", sd.lo, sd.hi), fmt.Sprintf("%s.%s returns buf[%s:%s], documented buf[%s:%s]", name, m, sd.lo, sd.hi, lo, hi))
+			r.Check(sd.max.equal(sd.hi), name+"."+m+" three-index slice", fn.Pos(), "cap == len", fmt.Sprintf("slice capacity bound `%s` differs from its length bound `%s`: appending to the returned bytes can overwrite input", *sd.max, sd.hi))
 		}
-
+		none := map[string]Lin{}
 		if fn := get("Move"); fn != nil {
-			z = fn.Params[0].Name()
-			storeSet(fn, "Move", map[string]Lin{pos(): linAtom(pos()).add(linAtom(fn.Params[1].Name()), 1)})
+			if s := sum(fn, "Move"); s != nil {
+				effect(fn, "Move", s, map[string]Lin{"pos": pos.add(param(fn, 1), 1)})
+			}
 		}
 		if fn := get("Rewind"); fn != nil {
-			z = fn.Params[0].Name()
-			storeSet(fn, "Rewind", map[string]Lin{pos(): linAtom(start()).add(linAtom(fn.Params[1].Name()), 1)})
+			if s := sum(fn, "Rewind"); s != nil {
+				effect(fn, "Rewind", s, map[string]Lin{"pos": start.add(param(fn, 1), 1)})
+			}
 		}
 		if fn := get("Skip"); fn != nil {
-			z = fn.Params[0].Name()
-			storeSet(fn, "Skip", map[string]Lin{start(): linAtom(pos())})
+			if s := sum(fn, "Skip"); s != nil {
+				effect(fn, "Skip", s, map[string]Lin{"start": pos})
+			}
 		}
 		if fn := get("Reset"); fn != nil {
-			z = fn.Params[0].Name()
-			storeSet(fn, "Reset", map[string]Lin{start(): linConst(0), pos(): linConst(0)})
+			if s := sum(fn, "Reset"); s != nil {
+				effect(fn, "Reset", s, map[string]Lin{"start": linConst(0), "pos": linConst(0)})
+			}
 		}
 		if fn := get("Pos"); fn != nil {
-			z = fn.Params[0].Name()
-			storeSet(fn, "Pos", map[string]Lin{})
-			retLin(fn, "Pos", linAtom(pos()).add(linAtom(start()), -1))
+			if s := sum(fn, "Pos"); s != nil {
+				effect(fn, "Pos", s, none)
+				retLin(fn, "Pos", s, pos.add(start, -1))
+			}
 		}
 		if fn := get("Offset"); fn != nil {
-			z = fn.Params[0].Name()
-			storeSet(fn, "Offset", map[string]Lin{})
-			retLin(fn, "Offset", linAtom(pos()))
+			if s := sum(fn, "Offset"); s != nil {
+				effect(fn, "Offset", s, none)
+				retLin(fn, "Offset", s, pos)
+			}
 		}
 		if ct.typ == "Input" {
 			if fn := get("Len"); fn != nil {
-				z = fn.Params[0].Name()
-				retLin(fn, "Len", linAtom(buflen()).add(linConst(1), -1))
+				if s := sum(fn, "Len"); s != nil {
+					retLin(fn, "Len", s, buflen.add(linConst(1), -1))
+				}
 			}
 		}
 		if fn := get("Lexeme"); fn != nil {
-			z = fn.Params[0].Name()
-			storeSet(fn, "Lexeme", map[string]Lin{})
-			sliceRet(fn, "Lexeme", linAtom(start()), linAtom(pos()))
+			if s := sum(fn, "Lexeme"); s != nil {
+				effect(fn, "Lexeme", s, none)
+				sliceRet(fn, "Lexeme", s, start, pos)
+			}
 		}
 		if fn := get("Shift"); fn != nil {
-			z = fn.Params[0].Name()
-			storeSet(fn, "Shift", map[string]Lin{start(): linAtom(pos())})
-			sliceRet(fn, "Shift", linAtom(start()), linAtom(pos()))
+			if s := sum(fn, "Shift"); s != nil {
+				effect(fn, "Shift", s, map[string]Lin{"start": pos})
+				sliceRet(fn, "Shift", s, start, pos)
+			}
 		}
 		if fn := get("Bytes"); fn != nil {
-			z = fn.Params[0].Name()
-			storeSet(fn, "Bytes", map[string]Lin{})
-			sliceRet(fn, "Bytes", linConst(0), linAtom(buflen()).add(linConst(1), -1))
+			if s := sum(fn, "Bytes"); s != nil {
+				effect(fn, "Bytes", s, none)
+				sliceRet(fn, "Bytes", s, linConst(0), buflen.add(linConst(1), -1))
+			}
 		}
 		if fn := get("Peek"); fn != nil {
-			z = fn.Params[0].Name()
-			ret := singleReturn(fn)
-			ok := false
-			var got string
-			if ret != nil && len(ret.Results) == 1 {
-				if u, isU := ret.Results[0].(*ssa.UnOp); isU && u.Op == token.MUL {
-					if ia, isIA := u.X.(*ssa.IndexAddr); isIA && canon(ia.X) == z+".buf" {
-						idx := linOf(ia.Index)
-						got = idx.String()
-						ok = idx.equal(linAtom(pos()).add(linAtom(fn.Params[1].Name()), 1))
+			if s := sum(fn, "Peek"); s != nil {
+				got := "?"
+				ok := false
+				if s.retIndex != nil {
+					got = s.retIndex.String()
+					ok = s.retIndex.equal(pos.add(param(fn, 1), 1))
+				}
+				noEffect := len(s.other) == 0
+				for role, l := range s.fields {
+					if !l.equal(linAtom("z." + role)) {
+						noEffect = false
 					}
 				}
+				r.Check(ok && noEffect, name+".Peek result", fn.Pos(), "buf["+got+"]", fmt.Sprintf("%s.Peek(i) is not buf[pos+i] without side effect (index `%s`)", name, got))
 			}
-			r.Check(ok && len(storesToField(fn, pos())) == 0, name+".Peek result", fn.Pos(), "buf["+got+"]", fmt.Sprintf("%s.Peek(i) is not buf[pos+i] without side effect (index `%s`)", name, got))
 		}
-		if fn := get("PeekErr"); fn != nil {
-			z = fn.Params[0].Name()
-			arg := fn.Params[1].Name()
-			// remaining = len-1 - (pos+arg)
-			rem := linAtom(buflen()).add(linConst(1), -1).add(linAtom(pos()), -1).add(linAtom(arg), -1)
+		// PeekErr(i) and Err(): io.EOF exactly from the terminator on, nil before it
+		eofContract := func(fn *ssa.Function, m string, arg Lin) {
+			recv := fn.Params[0].Name()
+			rem := buflen.add(linConst(1), -1).add(pos, -1).add(arg, -1) // len-1 - (pos+arg)
 			nEOF, nNil := 0, 0
 			for _, b := range fn.Blocks {
 				ret, ok := lastInstr(b).(*ssa.Return)
 				if !ok {
 					continue
 				}
-				fs := blockFacts(b)
+				fs := cr.normFacts(blockFacts(b), recv)
 				switch {
 				case isEOFValue(ret.Results[0]):
 					nEOF++
-					r.Check(entails(fs, rem.scale(-1)), name+".PeekErr io.EOF iff at/after the end", ret.Pos(), "", fmt.Sprintf("io.EOF is returned under %v, which does not imply pos+i >= len(buf)-1", factStrings(fs)))
+					r.Check(entails(fs, rem.scale(-1)), name+"."+m+" io.EOF iff at/after the end", ret.Pos(), "", fmt.Sprintf("io.EOF is returned under %v, which does not imply pos+i >= len(buf)-1", factStrings(fs)))
 				case isNilConst(ret.Results[0]):
 					nNil++
-					r.Check(entails(fs, rem.add(linConst(1), -1)), name+".PeekErr nil iff before the end", ret.Pos(), "", fmt.Sprintf("nil is returned under %v, which does not imply pos+i < len(buf)-1: the sentinel would be reported as data", factStrings(fs)))
+					r.Check(entails(fs, rem.add(linConst(1), -1)), name+"."+m+" nil iff before the end", ret.Pos(), "", fmt.Sprintf("nil is returned under %v, which does not imply pos+i < len(buf)-1: the sentinel would be reported as data", factStrings(fs)))
 				}
 			}
-			r.Check(nEOF == 1 && nNil == 1, name+".PeekErr returns", fn.Pos(), "", "expected exactly one io.EOF return and one nil return besides the stored error")
+			r.Check(nEOF == 1 && nNil == 1, name+"."+m+" returns", fn.Pos(), "", "expected exactly one io.EOF return and one nil return besides the stored error")
+		}
+		if fn := get("PeekErr"); fn != nil {
+			eofContract(fn, "PeekErr", param(fn, 1))
 		}
 		if fn := get("Err"); fn != nil {
-			ok := false
+			viaPeekErr := false
 			if ret := singleReturn(fn); ret != nil {
 				if c, isC := ret.Results[0].(*ssa.Call); isC {
-					if f := c.Call.StaticCallee(); f != nil && f.Name() == "PeekErr" {
-						if k, isK := c.Call.Args[1].(*ssa.Const); isK && k.Int64() == 0 {
-							ok = true
+					if f := c.Call.StaticCallee(); f != nil && f.Name() == "PeekErr" && len(c.Call.Args) == 2 && c.Call.Args[0] == ssa.Value(fn.Params[0]) {
+						if k, isK := c.Call.Args[1].(*ssa.Const); isK && ssaIntConst(k) && k.Int64() == 0 {
+							viaPeekErr = true
 						}
 					}
 				}
 			}
-			r.Check(ok, name+".Err is PeekErr(0)", fn.Pos(), "", "Err() no longer equals PeekErr(0)")
+			if viaPeekErr {
+				r.OK(name+".Err is PeekErr(0)", fn.Pos(), "delegates to PeekErr(0)")
+			} else {
+				// spelled out: the same contract with i = 0
+				eofContract(fn, "Err", linConst(0))
+			}
 		}
 	}
 }
@@ -231,23 +247,11 @@ func isNilConst(v ssa.Value) bool {
 // peekFacts: branch facts of block b including sentinel facts from byte
 // comparisons of Peek results: a byte known to be non-zero at offset X means
 // pos+X is a data byte:  len(buf)-2 - z.pos - X >= 0.
-func peekFacts(b *ssa.BasicBlock, z string) []Fact {
-	out := blockFacts(b)
-	for p := b.Idom(); p != nil; p = p.Idom() {
-		iff, ok := lastInstr(p).(*ssa.If)
-		if !ok || p.Succs[0] == p.Succs[1] {
-			continue
-		}
-		for i, s := range p.Succs {
-			if len(s.Preds) != 1 || !s.Dominates(b) {
-				continue
-			}
-			truth := i == 0
-			bo, ok := iff.Cond.(*ssa.BinOp)
-			if !ok {
-				continue
-			}
-			call, ok := stripConv(bo.X).(*ssa.Call)
+func peekFacts(b *ssa.BasicBlock, cr *cursorRoles, recv string) []Fact {
+	out := cr.normFacts(blockFacts(b), recv)
+	for _, at := range guardsAt(b) {
+		for _, pr := range [][2]ssa.Value{{at.x, at.y}, {at.y, at.x}} {
+			call, ok := stripConv(pr[0]).(*ssa.Call)
 			if !ok {
 				continue
 			}
@@ -255,27 +259,29 @@ func peekFacts(b *ssa.BasicBlock, z string) []Fact {
 			if f == nil || f.Name() != "Peek" || len(call.Call.Args) != 2 {
 				continue
 			}
-			k, isK := bo.Y.(*ssa.Const)
-			if !isK {
+			k, isK := pr[1].(*ssa.Const)
+			if !isK || !ssaIntConst(k) {
 				continue
 			}
 			kv := k.Int64()
+			op := at.op
+			if pr[0] == at.y { // constant on the left: mirror
+				op = map[token.Token]token.Token{token.LSS: token.GTR, token.LEQ: token.GEQ, token.GTR: token.LSS, token.GEQ: token.LEQ, token.EQL: token.EQL, token.NEQ: token.NEQ}[op]
+			}
 			nonzero := false
-			switch bo.Op {
-			case token.LSS: // c < K false -> c >= K
-				nonzero = !truth && kv >= 1
+			switch op {
 			case token.EQL:
-				nonzero = (!truth && kv == 0) || (truth && kv != 0)
+				nonzero = kv != 0
 			case token.NEQ:
-				nonzero = (truth && kv == 0) || (!truth && kv != 0)
+				nonzero = kv == 0
 			case token.GEQ:
-				nonzero = truth && kv >= 1
+				nonzero = kv >= 1
 			case token.GTR:
-				nonzero = truth && kv >= 0
+				nonzero = kv >= 0
 			}
 			if nonzero {
-				x := linOf(call.Call.Args[1])
-				out = append(out, Fact{L: linAtom("len("+z+".buf)").add(linConst(2), -1).add(linAtom(z+".pos"), -1).add(x, -1)})
+				x := cr.normLin(linOf(call.Call.Args[1]), recv)
+				out = append(out, Fact{L: linAtom("len(z.buf)").add(linConst(2), -1).add(linAtom("z.pos"), -1).add(x, -1)})
 			}
 		}
 	}
@@ -289,6 +295,11 @@ func runPeekRune(r *core.Run) {
 		if ct.rel != "" {
 			name = ct.rel + "." + ct.typ
 		}
+		cr, why := discoverCursorRoles(r, ct)
+		if cr == nil {
+			r.Unknown(name+" field roles", token.NoPos, "cannot identify the buffer / position fields of "+name+": "+why)
+			continue
+		}
 		for _, m := range []string{"PeekRune", "MoveRune"} {
 			fn := r.Prog.SSAFunc(ct.rel, ct.typ, m)
 			if fn == nil {
@@ -299,22 +310,22 @@ func runPeekRune(r *core.Run) {
 				continue
 			}
 			z := fn.Params[0].Name()
-			base := linAtom(z + ".pos")
+			base := linAtom("z.pos")
 			var argPos Lin = linConst(0)
 			if m == "PeekRune" {
 				argPos = linAtom(fn.Params[1].Name())
 			}
-			last := linAtom("len("+z+".buf)").add(linConst(1), -1) // index of the sentinel
+			last := linAtom("len(z.buf)").add(linConst(1), -1) // index of the sentinel
 			for _, b := range fn.Blocks {
-				fs := peekFacts(b, z)
+				fs := peekFacts(b, cr, z)
 				for _, in := range b.Instrs {
 					switch x := in.(type) {
 					case *ssa.Call:
 						f := x.Call.StaticCallee()
-						if f == nil || f.Name() != "Peek" {
+						if f == nil || f.Name() != "Peek" || recvName(f) != ct.typ {
 							continue
 						}
-						a := linOf(x.Call.Args[1])
+						a := cr.normLin(linOf(x.Call.Args[1]), z)
 						d := a.add(argPos, -1)
 						if !d.isConst() || d.C < 0 {
 							r.Unknown(fmt.Sprintf("%s.%s Peek(%s)", name, m, a), x.Pos(), "look-ahead offset is not position+constant")
@@ -325,7 +336,7 @@ func runPeekRune(r *core.Run) {
 						}
 						obs++
 						goal := last.add(base, -1).add(a, -1) // len-1 - pos - a >= 0
-						r.Check(entails(fs, goal), fmt.Sprintf("%s.%s read Peek(%s)", name, m, a), x.Pos(), "",
+						r.Check(entails(fs, goal), fmt.Sprintf("%s.%s read Peek(position+%d)", name, m, d.C), x.Pos(), "",
 							fmt.Sprintf("Peek(%s) is read under guards %v, which do not imply z.pos+%s <= len(buf)-1: for some position argument the read indexes past the terminator", a, factStrings(fs), a))
 					case *ssa.Return:
 						if m != "PeekRune" || len(x.Results) != 2 {
@@ -345,21 +356,44 @@ func runPeekRune(r *core.Run) {
 						r.Check(entails(fs, goal), fmt.Sprintf("%s.%s returns length %d", name, m, n.C), x.Pos(), "",
 							fmt.Sprintf("length %d is reported under guards %v, which do not imply that %d bytes remain at the peeked position (the guard must account for the position argument)", n.C, factStrings(fs), n.C))
 					case *ssa.Store:
-						if m != "MoveRune" || canon(x.Addr) != z+".pos" {
+						if m != "MoveRune" || cr.normAtom(canon(x.Addr), z) != "z.pos" {
 							continue
 						}
-						d := linOf(x.Val).add(base, -1)
-						if !d.isConst() {
-							r.Unknown(name+".MoveRune step", x.Pos(), "non-constant step")
+						d := cr.normLin(linOf(x.Val), z).add(base, -1)
+						if d.isConst() {
+							if d.C <= 1 {
+								continue
+							}
+							obs++
+							goal := last.add(base, -1).add(linConst(d.C), -1)
+							r.Check(entails(fs, goal), fmt.Sprintf("%s.MoveRune step %d", name, d.C), x.Pos(), "",
+								fmt.Sprintf("pos advances by %d under guards %v, which do not imply pos+%d <= len(buf)-1", d.C, factStrings(fs), d.C))
 							continue
 						}
-						if d.C <= 1 {
+						// pos += helper(...): a helper that returns only constants; each value k > 1 must imply k bytes remain
+						var call *ssa.Call
+						if bo, ok := x.Val.(*ssa.BinOp); ok && bo.Op == token.ADD {
+							for _, o := range []ssa.Value{bo.X, bo.Y} {
+								if c, isC := stripIntConv(o).(*ssa.Call); isC {
+									call = c
+								}
+							}
+						}
+						ks, okK := constResults(call)
+						if call == nil || !okK {
+							r.Unknown(name+".MoveRune step", x.Pos(), "the step is neither a constant nor the result of a helper that returns constants")
 							continue
 						}
-						obs++
-						goal := last.add(base, -1).add(linConst(d.C), -1)
-						r.Check(entails(fs, goal), fmt.Sprintf("%s.MoveRune step %d", name, d.C), x.Pos(), "",
-							fmt.Sprintf("pos advances by %d under guards %v, which do not imply pos+%d <= len(buf)-1", d.C, factStrings(fs), d.C))
+						for _, k := range ks {
+							if k <= 1 {
+								continue
+							}
+							obs++
+							fk := append(append([]Fact{}, fs...), cr.normFacts(callResultFacts(call, k), z)...)
+							goal := last.add(base, -1).add(linConst(k), -1)
+							r.Check(entails(fk, goal), fmt.Sprintf("%s.MoveRune step %d", name, k), x.Pos(), "",
+								fmt.Sprintf("pos advances by %d (result of %s) under guards %v, which do not imply pos+%d <= len(buf)-1", k, fnLabel(call.Call.StaticCallee()), factStrings(fk), k))
+						}
 					}
 				}
 			}
@@ -368,159 +402,372 @@ func runPeekRune(r *core.Run) {
 	r.Floor("rune look-ahead obligations", obs, 20)
 }
 
+// constResults: the distinct constants a module function can return (single integer result), if it returns only constants.
+func constResults(c *ssa.Call) ([]int64, bool) {
+	if c == nil {
+		return nil, false
+	}
+	f := c.Call.StaticCallee()
+	if f == nil || len(f.Blocks) == 0 || !core.InModule(fnPkg(f)) {
+		return nil, false
+	}
+	seen := map[int64]bool{}
+	var out []int64
+	for _, b := range f.Blocks {
+		ret, ok := lastInstr(b).(*ssa.Return)
+		if !ok {
+			continue
+		}
+		if len(ret.Results) != 1 {
+			return nil, false
+		}
+		k, isK := ret.Results[0].(*ssa.Const)
+		if !isK || !ssaIntConst(k) {
+			return nil, false
+		}
+		if !seen[k.Int64()] {
+			seen[k.Int64()] = true
+			out = append(out, k.Int64())
+		}
+	}
+	return out, len(out) > 0
+}
+
 // ------------------------------------------------------------------ R-BORROW
 
+// borrowCtx resolves values across a constructor, the helpers it hands the caller's slice to, and the
+// closures it creates (go/ssa keeps captured variables in heap cells; a cell with a single store denotes
+// the stored value).
+type borrowCtx struct {
+	r     *core.Run
+	alias map[ssa.Value]bool // values that denote (a re-slice of) the caller's array
+	cells map[*ssa.Alloc][]*ssa.Store
+	bind  map[ssa.Value]ssa.Value // FreeVar / helper Parameter -> value at the creation / call site
+	fns   []*ssa.Function
+	site  map[*ssa.Function]ssa.Instruction // helper or closure -> the instruction in its parent that creates / calls it
+}
+
+func (c *borrowCtx) resolve(v ssa.Value, depth int) ssa.Value {
+	for depth < 8 {
+		depth++
+		switch x := v.(type) {
+		case *ssa.ChangeType:
+			v = x.X
+			continue
+		case *ssa.Convert:
+			if isIntType(x.Type()) && isIntType(x.X.Type()) {
+				v = x.X
+				continue
+			}
+		case *ssa.UnOp:
+			if x.Op == token.MUL {
+				cell := c.resolve(x.X, depth)
+				if al, ok := cell.(*ssa.Alloc); ok {
+					if sts := c.cells[al]; len(sts) == 1 {
+						v = sts[0].Val
+						continue
+					}
+				}
+			}
+		case *ssa.FreeVar, *ssa.Parameter:
+			if b, ok := c.bind[v]; ok {
+				v = b
+				continue
+			}
+		}
+		break
+	}
+	return v
+}
+
+// isLenOfCaller: v is len(x) for an alias x taken before the slice variable is re-assigned.
+func (c *borrowCtx) isLenOfCaller(v ssa.Value) bool {
+	v = c.resolve(v, 0)
+	call, ok := v.(*ssa.Call)
+	if !ok {
+		return false
+	}
+	b, isB := call.Call.Value.(*ssa.Builtin)
+	if !isB || b.Name() != "len" || len(call.Call.Args) != 1 {
+		return false
+	}
+	return c.isOriginal(call.Call.Args[0])
+}
+
+// isOriginal: the value is the caller's slice itself (not a re-slice): the parameter, or a load of its cell
+// that no later store to the cell can reach.
+func (c *borrowCtx) isOriginal(v ssa.Value) bool {
+	switch x := v.(type) {
+	case *ssa.Parameter:
+		if b, ok := c.bind[x]; ok {
+			return c.isOriginal(b)
+		}
+		return c.alias[x]
+	case *ssa.UnOp:
+		if x.Op != token.MUL {
+			return false
+		}
+		al, ok := c.resolve(x.X, 0).(*ssa.Alloc)
+		if !ok {
+			return false
+		}
+		sts := c.cells[al]
+		if len(sts) == 0 {
+			return false
+		}
+		if _, isParam := sts[0].Val.(*ssa.Parameter); !isParam || !c.alias[sts[0].Val] {
+			return false
+		}
+		for _, st := range sts[1:] {
+			if instrReaches(st, x) {
+				return false
+			}
+		}
+		return true
+	}
+	return false
+}
+
+// instrReaches: can control flow from instruction a to instruction b (same function)?
+func instrReaches(a, b ssa.Instruction) bool {
+	if a.Parent() != b.Parent() {
+		return true // conservatively
+	}
+	if a.Block() == b.Block() {
+		if instrIndex(a) < instrIndex(b) {
+			return true
+		}
+	}
+	seen := map[*ssa.BasicBlock]bool{}
+	var walk func(x *ssa.BasicBlock) bool
+	walk = func(x *ssa.BasicBlock) bool {
+		for _, s := range x.Succs {
+			if s == b.Block() {
+				return true
+			}
+			if !seen[s] {
+				seen[s] = true
+				if walk(s) {
+					return true
+				}
+			}
+		}
+		return false
+	}
+	return walk(a.Block())
+}
+
+func (c *borrowCtx) isAlias(v ssa.Value, depth int) bool {
+	if depth > 8 {
+		return false
+	}
+	if c.alias[v] {
+		return true
+	}
+	switch x := v.(type) {
+	case *ssa.Slice:
+		return c.isAlias(x.X, depth+1)
+	case *ssa.ChangeType:
+		return c.isAlias(x.X, depth+1)
+	case *ssa.Phi:
+		for _, e := range x.Edges {
+			if c.isAlias(e, depth+1) {
+				return true
+			}
+		}
+	case *ssa.UnOp:
+		if x.Op == token.MUL {
+			if al, ok := c.resolve(x.X, 0).(*ssa.Alloc); ok {
+				for _, st := range c.cells[al] {
+					if c.isAlias(st.Val, depth+1) {
+						return true
+					}
+				}
+			}
+		}
+	case *ssa.FreeVar, *ssa.Parameter:
+		if b, ok := c.bind[v]; ok {
+			return c.isAlias(b, depth+1)
+		}
+	}
+	return false
+}
+
+// capGuard: the atom states cap(x) > n (or its negation when neg) for an alias x and n = len(caller's slice).
+func (c *borrowCtx) capGuard(a condAtom, neg bool) bool {
+	isCap := func(v ssa.Value) bool {
+		call, ok := c.resolve(v, 0).(*ssa.Call)
+		if !ok {
+			return false
+		}
+		b, isB := call.Call.Value.(*ssa.Builtin)
+		return isB && b.Name() == "cap" && len(call.Call.Args) == 1 && c.isAlias(call.Call.Args[0], 0)
+	}
+	op := a.op
+	x, y := a.x, a.y
+	if isCap(y) && c.isLenOfCaller(x) { // n OP cap  ->  cap OP' n
+		x, y = y, x
+		op = map[token.Token]token.Token{token.LSS: token.GTR, token.LEQ: token.GEQ, token.GTR: token.LSS, token.GEQ: token.LEQ, token.EQL: token.EQL, token.NEQ: token.NEQ}[op]
+	}
+	if !isCap(x) || !c.isLenOfCaller(y) {
+		return false
+	}
+	if neg {
+		return op == token.LEQ || op == token.EQL
+	}
+	return op == token.GTR
+}
+
+func (c *borrowCtx) guarded(at ssa.Instruction, neg bool) bool {
+	for depth := 0; at != nil && depth < 4; depth++ {
+		for _, a := range guardsAt(at.Block()) {
+			if c.capGuard(a, neg) {
+				return true
+			}
+		}
+		at = c.site[at.Parent()]
+	}
+	return false
+}
+
 func runBorrow(r *core.Run) {
-	for _, tc := range []struct{ rel, fn string }{{"", "NewInputBytes"}, {"buffer", "NewLexerBytes"}} {
-		fd, pk := r.Prog.FuncDecl(tc.rel, "", tc.fn)
+	for _, tc := range []struct{ rel, fn, typ string }{{"", "NewInputBytes", "Input"}, {"buffer", "NewLexerBytes", "Lexer"}} {
+		ctor := r.Prog.SSAFunc(tc.rel, "", tc.fn)
 		name := tc.fn
-		if fd == nil {
+		if ctor == nil || len(ctor.Params) != 1 {
 			r.BrokenAnchor(name)
 			continue
 		}
-		if len(fd.Type.Params.List) != 1 || len(fd.Type.Params.List[0].Names) != 1 {
-			r.Unknown(name+" signature", fd.Pos(), "expected one []byte parameter")
-			continue
-		}
-		bObj := pk.TypesInfo.Defs[fd.Type.Params.List[0].Names[0]]
-		// n := len(b)
-		var nObj types.Object
-		ast.Inspect(fd.Body, func(nd ast.Node) bool {
-			as, ok := nd.(*ast.AssignStmt)
-			if !ok || as.Tok != token.DEFINE || len(as.Lhs) != 1 || len(as.Rhs) != 1 {
-				return true
+		c := &borrowCtx{r: r, alias: map[ssa.Value]bool{ctor.Params[0]: true}, cells: map[*ssa.Alloc][]*ssa.Store{}, bind: map[ssa.Value]ssa.Value{}, site: map[*ssa.Function]ssa.Instruction{}}
+		// the functions that can touch the caller's array: the constructor, its closures, helpers that receive the slice
+		seen := map[*ssa.Function]bool{}
+		var add func(f *ssa.Function, depth int)
+		add = func(f *ssa.Function, depth int) {
+			if f == nil || seen[f] || len(f.Blocks) == 0 || depth > 3 {
+				return
 			}
-			if ce, ok := as.Rhs[0].(*ast.CallExpr); ok && len(ce.Args) == 1 {
-				if id, ok := ce.Fun.(*ast.Ident); ok && id.Name == "len" {
-					if a, ok := ce.Args[0].(*ast.Ident); ok && pk.TypesInfo.Uses[a] == bObj && nObj == nil {
-						nObj = pk.TypesInfo.Defs[as.Lhs[0].(*ast.Ident)]
-					}
-				}
-			}
-			return true
-		})
-		if nObj == nil {
-			r.Unknown(name+" shape", fd.Pos(), "no `n := len(b)` found")
-			continue
-		}
-		// reassignments of n would invalidate the argument
-		nWrites := 0
-		ast.Inspect(fd.Body, func(nd ast.Node) bool {
-			switch s := nd.(type) {
-			case *ast.AssignStmt:
-				for _, l := range s.Lhs {
-					if id, ok := l.(*ast.Ident); ok && pk.TypesInfo.Uses[id] == nObj {
-						nWrites++
-					}
-				}
-			case *ast.IncDecStmt:
-				if id, ok := s.X.(*ast.Ident); ok && pk.TypesInfo.Uses[id] == nObj {
-					nWrites++
-				}
-			}
-			return true
-		})
-		r.Check(nWrites == 0, name+" n is len(b) throughout", fd.Pos(), "", "n is reassigned after `n := len(b)`")
-		// every element write through b is b[n] = ..., inside the `cap(b) > n` branch
-		var guardIf *ast.IfStmt
-		ast.Inspect(fd.Body, func(nd ast.Node) bool {
-			ifs, ok := nd.(*ast.IfStmt)
-			if !ok {
-				return true
-			}
-			if be, ok := ast.Unparen(ifs.Cond).(*ast.BinaryExpr); ok {
-				l, r2 := types.ExprString(be.X), types.ExprString(be.Y)
-				bn, nn := bObj.Name(), nObj.Name()
-				if (be.Op == token.GTR && l == "cap("+bn+")" && r2 == nn) || (be.Op == token.LSS && l == nn && r2 == "cap("+bn+")") {
-					guardIf = ifs
-				}
-			}
-			return true
-		})
-		if guardIf == nil {
-			r.Fail(name+" capacity guard", fd.Pos(), "no `cap(b) > n` test: the terminator write may land outside the caller's capacity or force a hidden copy")
-			continue
-		}
-		writes, badWrites := 0, 0
-		var restoreLit *ast.FuncLit
-		ast.Inspect(fd.Body, func(nd ast.Node) bool {
-			switch s := nd.(type) {
-			case *ast.AssignStmt:
-				for i, l := range s.Lhs {
-					ix, ok := l.(*ast.IndexExpr)
-					if !ok {
-						if se, ok := l.(*ast.SelectorExpr); ok && se.Sel.Name == "restore" && i < len(s.Rhs) {
-							restoreLit, _ = s.Rhs[i].(*ast.FuncLit)
+			seen[f] = true
+			c.fns = append(c.fns, f)
+			for _, b := range f.Blocks {
+				for _, in := range b.Instrs {
+					if st, ok := in.(*ssa.Store); ok {
+						if al, isAl := st.Addr.(*ssa.Alloc); isAl {
+							c.cells[al] = append(c.cells[al], st)
 						}
-						continue
-					}
-					id, ok := ix.X.(*ast.Ident)
-					if !ok || pk.TypesInfo.Uses[id] != bObj {
-						continue
-					}
-					writes++
-					idx, isID := ix.Index.(*ast.Ident)
-					inGuard := s.Pos() >= guardIf.Body.Pos() && s.End() <= guardIf.Body.End()
-					if !isID || pk.TypesInfo.Uses[idx] != nObj || !inGuard {
-						badWrites++
-					}
-				}
-			case *ast.CallExpr:
-				if id, ok := s.Fun.(*ast.Ident); ok && id.Name == "copy" && len(s.Args) == 2 {
-					if a, ok := s.Args[0].(*ast.Ident); ok && pk.TypesInfo.Uses[a] == bObj {
-						writes++
-						badWrites++
-					}
-				}
-				if id, ok := s.Fun.(*ast.Ident); ok && id.Name == "append" && len(s.Args) >= 1 {
-					if a, ok := s.Args[0].(*ast.Ident); ok && pk.TypesInfo.Uses[a] == bObj {
-						// append(b, 0) is only safe where cap(b) == len(b): the else branch of the guard
-						inElse := guardIf.Else != nil && s.Pos() >= guardIf.Else.Pos() && s.End() <= guardIf.Else.End()
-						r.Check(inElse, name+" append only without spare capacity", s.Pos(), "", "append(b, 0) outside the `cap(b) <= n` branch writes into the caller's spare capacity without a restore")
 					}
 				}
 			}
-			return true
-		})
-		r.Check(writes == 2 && badWrites == 0, name+" writes only b[len(b)]", fd.Pos(), fmt.Sprintf("%d writes", writes),
-			fmt.Sprintf("%d element writes through the caller's slice, %d of them not `b[n] = …` under `cap(b) > n` (expected: the terminator store and the restore closure's store)", writes, badWrites))
-		// restore closure: b[n] = c where c := b[n] was read before the overwrite
-		okRestore := false
-		if restoreLit != nil && len(restoreLit.Body.List) == 1 {
-			if as, ok := restoreLit.Body.List[0].(*ast.AssignStmt); ok && len(as.Lhs) == 1 && len(as.Rhs) == 1 {
-				if cid, ok := as.Rhs[0].(*ast.Ident); ok {
-					cObj := pk.TypesInfo.Uses[cid]
-					// find `c := b[n]` preceding `b[n] = 0`
-					var defPos, zeroPos token.Pos
-					for _, st := range guardIf.Body.List {
-						if a2, ok := st.(*ast.AssignStmt); ok && len(a2.Lhs) == 1 {
-							if id, ok := a2.Lhs[0].(*ast.Ident); ok && pk.TypesInfo.Defs[id] == cObj {
-								if types.ExprString(a2.Rhs[0]) == bObj.Name()+"["+nObj.Name()+"]" {
-									defPos = a2.Pos()
+			for _, b := range f.Blocks {
+				for _, in := range b.Instrs {
+					switch x := in.(type) {
+					case *ssa.MakeClosure:
+						g, _ := x.Fn.(*ssa.Function)
+						if g == nil {
+							continue
+						}
+						for i, fv := range g.FreeVars {
+							if i < len(x.Bindings) {
+								c.bind[fv] = x.Bindings[i]
+							}
+						}
+						c.site[g] = x
+						add(g, depth+1)
+					case *ssa.Call:
+						g := x.Call.StaticCallee()
+						if g == nil || !core.InModule(fnPkg(g)) || len(g.Blocks) == 0 || x.Call.IsInvoke() {
+							continue
+						}
+						passes := false
+						for _, a := range x.Call.Args {
+							if c.isAlias(a, 0) {
+								passes = true
+							}
+						}
+						if !passes || len(callSitesOf(r, g)) != 1 {
+							continue
+						}
+						for i, p := range g.Params {
+							if i < len(x.Call.Args) {
+								c.bind[p] = x.Call.Args[i]
+							}
+						}
+						c.site[g] = x
+						add(g, depth+1)
+					}
+				}
+			}
+		}
+		add(ctor, 0)
+		writes, bad := 0, 0
+		var zeroStore, restoreStore *ssa.Store
+		var why []string
+		for _, f := range c.fns {
+			for _, b := range f.Blocks {
+				for _, in := range b.Instrs {
+					switch x := in.(type) {
+					case *ssa.Store:
+						ia, ok := x.Addr.(*ssa.IndexAddr)
+						if !ok || !c.isAlias(ia.X, 0) {
+							continue
+						}
+						writes++
+						okIdx := c.isLenOfCaller(ia.Index)
+						okGuard := c.guarded(x, false)
+						if !okIdx || !okGuard {
+							bad++
+							why = append(why, fmt.Sprintf("%s (index is len(b): %v, under cap(b) > len(b): %v)", r.Prog.Position(x.Pos()), okIdx, okGuard))
+						}
+						if k, isK := x.Val.(*ssa.Const); isK && ssaIntConst(k) && k.Int64() == 0 {
+							zeroStore = x
+						} else {
+							restoreStore = x
+						}
+					case *ssa.Call:
+						if bi, ok := x.Call.Value.(*ssa.Builtin); ok {
+							switch bi.Name() {
+							case "copy":
+								if c.isAlias(x.Call.Args[0], 0) {
+									writes++
+									bad++
+									why = append(why, fmt.Sprintf("%s copy into the caller's slice", r.Prog.Position(x.Pos())))
+								}
+							case "append":
+								if c.isAlias(x.Call.Args[0], 0) {
+									r.Check(c.guarded(x, true), name+" append only without spare capacity", x.Pos(), "", "append(b, 0) outside the `cap(b) <= len(b)` branch writes into the caller's spare capacity without a restore")
 								}
 							}
-							if _, ok := a2.Lhs[0].(*ast.IndexExpr); ok && a2.Tok == token.ASSIGN {
-								zeroPos = a2.Pos()
-							}
 						}
 					}
-					okRestore = defPos.IsValid() && zeroPos.IsValid() && defPos < zeroPos
 				}
 			}
 		}
-		r.Check(okRestore, name+" restore puts the saved byte back", fd.Pos(), "", "the restore closure is not `b[n] = c` with `c := b[n]` saved before the terminator overwrite")
+		r.Check(writes == 2 && bad == 0, name+" writes only b[len(b)]", ctor.Pos(), fmt.Sprintf("%d writes", writes),
+			fmt.Sprintf("%d element writes through the caller's slice, %d of them not `b[len(b)] = …` under `cap(b) > len(b)` (expected: the terminator store and the restore closure's store): %s", writes, bad, strings.Join(why, "; ")))
+		// restore closure: b[n] = c where c was read from b[n] before the overwrite
+		okRestore := false
+		if zeroStore != nil && restoreStore != nil && restoreStore.Parent() != ctor {
+			if ld, ok := c.resolve(restoreStore.Val, 0).(*ssa.UnOp); ok && ld.Op == token.MUL {
+				if ia, ok := ld.X.(*ssa.IndexAddr); ok && c.isAlias(ia.X, 0) && c.isLenOfCaller(ia.Index) {
+					// the save executes before the overwrite
+					if ld.Parent() == zeroStore.Parent() && (ld.Block() == zeroStore.Block() && instrIndex(ld) < instrIndex(zeroStore) || ld.Block() != zeroStore.Block() && ld.Block().Dominates(zeroStore.Block())) {
+						okRestore = true
+					}
+				}
+			}
+		}
+		r.Check(okRestore, name+" restore puts the saved byte back", ctor.Pos(), "", "the restore closure does not store back at index len(b) the byte that was read from there before the terminator overwrite")
 		// Restore() clears the closure after calling it
-		typ := map[string]string{"NewInputBytes": "Input", "NewLexerBytes": "Lexer"}[tc.fn]
-		if rf := r.Prog.SSAFunc(tc.rel, typ, "Restore"); rf != nil {
+		cr, _ := discoverCursorRoles(r, cursorType{tc.rel, tc.typ})
+		if rf := r.Prog.SSAFunc(tc.rel, tc.typ, "Restore"); rf != nil && cr != nil && cr.role["restore"] != "" {
 			cleared := false
 			for _, st := range allStores(rf) {
-				if strings.HasSuffix(canon(st.Addr), ".restore") && isNilConst(st.Val) {
+				if strings.HasSuffix(canon(st.Addr), "."+cr.role["restore"]) && isNilConst(st.Val) {
 					cleared = true
 				}
 			}
-			r.Check(cleared, typ+".Restore clears the closure", rf.Pos(), "", "Restore does not reset z.restore: a second Restore would rewrite the caller's byte")
+			r.Check(cleared, tc.typ+".Restore clears the closure", rf.Pos(), "", "Restore does not reset the restore closure: a second Restore would rewrite the caller's byte")
 		} else {
-			r.BrokenAnchor(typ + ".Restore")
+			r.BrokenAnchor(tc.typ + ".Restore")
 		}
 	}
 }
